@@ -175,7 +175,21 @@ def c_case_recv(x, case, r, sugg=True):
 
 
 # ---------------------------------------------------------------- inputs
+# names that cannot be written as a bare item name: syn's Path parser takes them only as `r#name`
+# (crate / self / super / Self are accepted bare)
+STRICT_KW = set("""as break const continue else enum extern false fn for if impl in let loop match mod move mut pub ref return static
+struct trait true type unsafe use where while async await dyn abstract become box do final macro override priv typeof unsized
+virtual yield try""".split())
+
+
+def w(name):
+    """how the item name `name` is written in an attribute"""
+    return "r#" + name if name in STRICT_KW else name
+
+
 def kebab_unreachable(name):
+    if name.startswith("r#") and name[2:] in STRICT_KW:
+        return False
     return "-" in name or "#" in name
 
 
@@ -183,6 +197,7 @@ def gen_value(rng, t, name, depth=0):
     """a well-formed item `name ...` for a field of type t; None when no syntax can supply it"""
     if kebab_unreachable(name):
         return None
+    name = w(name)
     k = t["t"]
     if k in ("opt", "box", "res"):
         return gen_value(rng, t["e"], name, depth)
@@ -255,11 +270,11 @@ def field_required(f, container_default=False):
 
 def gen_value_for_field(rng, f, depth):
     if f["with"] == "w_len":
-        return '%s = "%s"' % (f["name"], rng.choice(["abc", "", "hello"])) if not kebab_unreachable(f["name"]) else None
+        return '%s = "%s"' % (w(f["name"]), rng.choice(["abc", "", "hello"])) if not kebab_unreachable(f["name"]) else None
     if f["with"] == "w_fail":
         return None
     if f["post"] and f["post"][1] == "a_nonempty":
-        return '%s = "%s"' % (f["name"], rng.choice(["abc", "q"])) if not kebab_unreachable(f["name"]) else None
+        return '%s = "%s"' % (w(f["name"]), rng.choice(["abc", "q"])) if not kebab_unreachable(f["name"]) else None
     return gen_value(rng, f["ty"], f["name"], depth)
 
 
@@ -271,6 +286,7 @@ def struct_items(rng, x, depth):
 
 def gen_recv_item(rng, x, name, depth=0):
     """a mistake-free meta item named `name` accepted by receiver x; None if impossible"""
+    name = w(name)
     if x["cinfo"]["post"] and x["cinfo"]["post"][1] == "ca_fail":
         return None
     k = x["kind"]
@@ -288,7 +304,7 @@ def gen_recv_item(rng, x, name, depth=0):
     rng.shuffle(vs)
     for v in vs:
         if v["style"] == "unit":
-            return rng.choice(['%s = "%s"' % (name, v["name"]), "%s(%s)" % (name, v["name"])])
+            return rng.choice(['%s = "%s"' % (name, v["name"]), "%s(%s)" % (name, w(v["name"]))])
         if v["style"] == "newtype":
             inner = gen_value(rng, v["fields"][0]["ty"], v["name"], depth + 1)
             if inner is not None:
@@ -296,7 +312,7 @@ def gen_recv_item(rng, x, name, depth=0):
         else:
             items = gen_items(rng, v["fields"], depth + 1)
             if items is not None:
-                return "%s(%s(%s))" % (name, v["name"], ", ".join(items))
+                return "%s(%s(%s))" % (name, w(v["name"]), ", ".join(items))
     return None
 
 
